@@ -208,7 +208,9 @@ def changeOffset (affected : List Obj) (old new : Str) : List Obj :=
 /-- where the entries below `x` go: `x.resolved_target` (only symlinks are ever asked) -/
 def symTarget (x : Obj) : Str := match x with | .sym l t _ => resolvedTarget l t | _ => x.loc
 
-/-- the `while True: for x in sorted(syms): … break` loop on the symlinks -/
+/-- the bounded `for _ in range(nsyms**2 + nsyms + 2): for x in sorted(syms): … break` loop on the symlinks (after the
+fix; it was `while True`): the first argument is the number of passes left, `none` = the `else:` branch of the outer
+loop, `raise AssertionError("… symlink loop …")` -/
 def symLoop : Nat → List Obj → Option (List Obj)
   | 0, _ => none
   | fuel + 1, syms =>
@@ -261,7 +263,8 @@ def insertByNat (key : Obj → Nat) (e : Obj) : List Obj → List Obj
 def sortByNat (key : Obj → Nat) (l : List Obj) : List Obj := l.foldr (insertByNat key) []
 
 /-- `convert_archive(archive)` given `raw = list(archive_to_fsobj(archive))`; added directories carry an
-empty mtime token (the code uses the current time) -/
+empty mtime token (the code uses the current time); `none` = `AssertionError` (symlink loop among symlinks recorded
+below symlinks: the pass bound of the code, not a modelling fuel) -/
 def convertArchive (raw : List Obj) : Option (List Obj) :=
   let t := setOf raw
   let rawSyms := t.filter Obj.isSym
